@@ -421,9 +421,48 @@ type dedupKeySite struct {
 	okOf []ssa.Value       // the helper's boolean result at those callers
 }
 
+// keyAlternative: one of the values a key may take and the block that hands it on.
+type keyAlternative struct {
+	v  ssa.Value
+	at *ssa.BasicBlock
+}
+
+// keyAlternatives: a key chosen before it is handed on (`key := strconv.Itoa(index); if … { key
+// = … }`) is a phi: each of its alternatives is a key of its own, handed on by the block the
+// alternative comes from.
+func keyAlternatives(v ssa.Value, at *ssa.BasicBlock) []keyAlternative {
+	var out []keyAlternative
+	seen := map[ssa.Value]bool{}
+	var expand func(v ssa.Value, at *ssa.BasicBlock)
+	expand = func(v ssa.Value, at *ssa.BasicBlock) {
+		if seen[v] {
+			return
+		}
+		seen[v] = true
+		if phi, ok := v.(*ssa.Phi); ok {
+			for i, e := range phi.Edges {
+				expand(e, phi.Block().Preds[i])
+			}
+			return
+		}
+		out = append(out, keyAlternative{v, at})
+	}
+	expand(v, at)
+	return out
+}
+
+// isPositionalKey: the fallback key strconv.Itoa(index): unique per request, no de-duplication.
+func isPositionalKey(v ssa.Value) bool {
+	kc, ok := v.(*ssa.Call)
+	return ok && calleeName(&kc.Call) == "strconv.Itoa"
+}
+
 // resolveDedupKey follows a key that is the result of a module helper into that helper: the
-// checks are then made on what the helper returns together with `true`.
-func resolveDedupKey(s dedupKeySite, depth int) []dedupKeySite {
+// checks are then made on what the helper returns (together with `true` when it also answers
+// whether there is a shared key). A helper that makes the whole choice (`requestDedupKey(index,
+// req, variables)`) returns the positional key on some of its exits: those are not
+// de-duplicating keys and are reported through unique.
+func resolveDedupKey(s dedupKeySite, depth int, unique *bool) []dedupKeySite {
 	var call *ssa.Call
 	idx := 0
 	switch x := s.key.(type) {
@@ -466,6 +505,7 @@ func resolveDedupKey(s dedupKeySite, depth int) []dedupKeySite {
 		}
 	}
 	var out []dedupKeySite
+	positional := false
 	for _, ret := range returnsOf(g) {
 		rv := retVals(ret)
 		if idx >= len(rv) {
@@ -476,14 +516,23 @@ func resolveDedupKey(s dedupKeySite, depth int) []dedupKeySite {
 				continue // "no shared key" exit
 			}
 		}
-		n := dedupKeySite{fn: g, vars: g.Params[pi], key: rv[idx], at: ret.Block(), ok: append(append([]*ssa.BasicBlock{}, s.ok...), s.at), okOf: append(append([]ssa.Value{}, s.okOf...), okv)}
-		if bi < 0 {
-			n.ok, n.okOf = s.ok, s.okOf
+		for _, alt := range keyAlternatives(rv[idx], ret.Block()) {
+			if isPositionalKey(alt.v) {
+				positional = true
+				continue
+			}
+			n := dedupKeySite{fn: g, vars: g.Params[pi], key: alt.v, at: alt.at, ok: append(append([]*ssa.BasicBlock{}, s.ok...), s.at), okOf: append(append([]ssa.Value{}, s.okOf...), okv)}
+			if bi < 0 {
+				n.ok, n.okOf = s.ok, s.okOf
+			}
+			out = append(out, resolveDedupKey(n, depth+1, unique)...)
 		}
-		out = append(out, resolveDedupKey(n, depth+1)...)
 	}
 	if len(out) == 0 {
 		return []dedupKeySite{s}
+	}
+	if positional && unique != nil {
+		*unique = true
 	}
 	return out
 }
@@ -525,34 +574,17 @@ func ruleDedup(r *Run) {
 			}
 			// a key chosen before a single Set call (`key := strconv.Itoa(index); if … { key = … }`)
 			// is a phi: each of its alternatives is a key of its own, handed on by the block the
-			// alternative comes from
+			// alternative comes from; a key that a helper of the module returns is judged there
 			var sites []dedupKeySite
 			unique := false
-			seenAlt := map[ssa.Value]bool{}
-			var expand func(v ssa.Value, at *ssa.BasicBlock)
-			expand = func(v ssa.Value, at *ssa.BasicBlock) {
-				if phi, ok := v.(*ssa.Phi); ok {
-					if seenAlt[v] {
-						return
-					}
-					seenAlt[v] = true
-					for i, e := range phi.Edges {
-						expand(e, phi.Block().Preds[i])
-					}
-					return
-				}
+			for _, alt := range keyAlternatives(c.Call.Args[3], c.Block()) {
 				// the fallback key is strconv.Itoa(index): unique per request, no de-duplication
-				if kc, ok := v.(*ssa.Call); ok && calleeName(&kc.Call) == "strconv.Itoa" {
+				if isPositionalKey(alt.v) {
 					unique = true
-					return
+					continue
 				}
-				if seenAlt[v] {
-					return
-				}
-				seenAlt[v] = true
-				sites = append(sites, resolveDedupKey(dedupKeySite{fn: set, vars: set.Params[3], key: v, at: at}, 0)...)
+				sites = append(sites, resolveDedupKey(dedupKeySite{fn: set, vars: set.Params[3], key: alt.v, at: alt.at}, 0, &unique)...)
 			}
-			expand(c.Call.Args[3], c.Block())
 			if unique {
 				r.OK(rule, fnName(set), "unique key", r.P.pos(c.Pos()), "requests that are not id-only node lookups get a key that is unique per request (their index)")
 			}
